@@ -477,6 +477,39 @@ func untaggedChoiceMember(t reflect.Type, depth int) bool {
 	return false
 }
 
+// roundTripsAlone: marshalled and unmarshalled on its own, in a fresh call, the value comes back as itself (or does not
+// marshal at all).  The histories are built from such items only: what a history may not do is change an answer; whether
+// single calls round-trip is what the `R` operations are for (the generated types include some outside the decoder's
+// domain, e.g. members of a SET that share a tag).
+func roundTripsAlone(t reflect.Type, params string, v reflect.Value) (ok bool) {
+	defer func() {
+		if recover() != nil {
+			ok = false
+		}
+	}()
+	b, err := asn.BerMarshalWithParams(v.Addr().Interface(), params)
+	if err != nil {
+		return true
+	}
+	w := reflect.New(t)
+	if asn.UnmarshalWithParams(b, w.Interface(), params) != nil {
+		return false
+	}
+	return valStr(w.Elem()) == valStr(v)
+}
+
+func historyItem(r *rng) (reflect.Type, string, reflect.Value) {
+	for k := 0; k < 12; k++ {
+		t, p, v := randomItem(r, r.pick(20, 50, 90))
+		if roundTripsAlone(t, p, v) {
+			return t, p, v
+		}
+	}
+	v := reflect.New(reflect.TypeOf(int64(0))).Elem()
+	v.SetInt(int64(r.intn(70000)))
+	return v.Type(), "", v
+}
+
 func genBerHistories(o genOpts, r *rng, w *bufio.Writer) {
 	n := 40
 	if o.tier == "thorough" {
@@ -491,7 +524,7 @@ func genBerHistories(o genOpts, r *rng, w *bufio.Writer) {
 		var p0 string
 		var v0 reflect.Value
 		for j := 0; j < k; j++ {
-			t, p, v := randomItem(r, r.pick(20, 50, 90))
+			t, p, v := historyItem(r)
 			switch {
 			case j == 0:
 				t0, p0, v0 = t, p, v
@@ -503,6 +536,9 @@ func genBerHistories(o genOpts, r *rng, w *bufio.Writer) {
 				t, p = t0, p0
 				v = reflect.New(t).Elem()
 				fillValue(r, v, 0, false, 50)
+				if !roundTripsAlone(t, p, v) {
+					v = v0
+				}
 			}
 			items = append(items, berItem(t, p, v))
 		}
